@@ -607,6 +607,16 @@ def q_where(ds, fn): return ds.Where(fn)
 def q_select(ds, fn): return ds.Select(fn)
 def q_good(ds): return ds.Where(good)
 def q_lambda_again(ds): return ds.Select(lambda e: (e.pt > PT_CUT, sq(e.pt), Cfg.THR))
+# a default that is a LOCAL function next to a default that is a plain local value hiding a module global of the same name
+kloc = 5
+def local_function_default(ds):
+    kloc = 7
+    def shift(x): return x.plus1
+    fn = lambda e, *, g=shift, kloc=kloc: (g(e.x), kloc)
+    try:
+        return ds.Select(lambda e, *, g=shift, kloc=kloc: (g(e.x), kloc)), fn
+    except ValueError:
+        return "refused", fn
 # a variable of the enclosing function that has no value any more when the lambda is passed again (deleted, or assigned on a branch
 # not taken) while a module global carries the same name: the global is another variable
 cutx = 99.0
@@ -683,6 +693,22 @@ def def_history(ctx, rounds=8):
             got = frozenset([((), f"<compile/eval failed: {type(e).__name__}: {e}>")])
         if got != expected:
             ctx.violation("def-history:values-of-another-moment", f"{what}: python gives {probe.describe(expected, 2)}, recorded {astx.unparse(lam)[:200]} gives {probe.describe(got, 2)}", {"def_history": True})
+    ctx.case("def-history:local-function-default", True)
+    try:
+        got_s, fn = m.local_function_default(ds)
+        if got_s != "refused":
+            lam = got_s.query_ast.args[1]
+            expected = probe.behaviour(fn)
+            try:
+                got = probe.behaviour(probe.compile_lambda(lam, {"shift": lambda x: x.plus1}))
+            except Exception as e:
+                got = frozenset([((), f"<compile/eval failed: {type(e).__name__}: {e}>")])
+            if got != expected:
+                ctx.violation("def-history:values-of-another-moment", f"a local function and a local value as defaults of the passed lambda (a module global kloc = 5 exists): python gives {probe.describe(expected, 2)}, recorded {astx.unparse(lam)[:200]} gives {probe.describe(got, 2)}", {"def_history": True})
+        else:
+            ctx.count("def-history:refused (a default that is a local function)")
+    except Exception as e:
+        ctx.violation(f"def-history:exc:{type(e).__name__}", f"local function default: {type(e).__name__}: {str(e)[:200]}", {"def_history": True})
     for how in ("deleted", "branch-not-taken"):
         ctx.case(f"def-history:empty-cell:{how}", True)
         try:
